@@ -179,7 +179,11 @@ def run(prop, tier, seed, only=None):
     if tier != "quick" and "VERIF_BUDGET_S" not in os.environ:
         # the thorough tier explores until this wall-clock budget per worker pool is used up; what was cut is
         # listed in the evidence (scenarios_incomplete / scenarios_cut_by_time_budget). 0 = no budget.
-        os.environ["VERIF_BUDGET_S"] = "1200"
+        os.environ["VERIF_BUDGET_S"] = "3600"
+    if tier != "quick" and "VERIF_MAX_STATES" not in os.environ:
+        # deterministic size of the thorough tier: every exploration is a breadth-first prefix of at most this
+        # many distinct states (the wall-clock budget above is only a safety net for slow machines)
+        os.environ["VERIF_MAX_STATES"] = "10000"
     return REGISTRY[prop](tier, seed, only=only)
 
 
